@@ -35,12 +35,16 @@ def diameter(grid):
 
 
 def abs_integrals(space):
-    """m_i = integral of |phi_i| for DP0 / P1 / DP1 on the whole grid (non-negative partition of unity)."""
-    import bempp_cl.api as api
-    if space.identifier == "p0_discontinuous" if hasattr(space, "identifier") else False:
-        return np.asarray(space.grid.volumes, dtype=float)
-    ident = api.operators.boundary.sparse.identity(space, space, space).weak_form().to_dense()
-    return np.asarray(ident).real @ np.ones(space.global_dof_count)
+    """m_i = integral of |phi_i| for DP0 / P1 / DP1: the reference shape functions are non-negative with integral
+    area (constant) resp. area/3 (linear) per element; summed through the space's own local2global."""
+    grid = space.grid
+    ident = space.shapeset.identifier
+    w = {"p0_discontinuous": 1.0, "p1_discontinuous": 1.0 / 3.0}[ident]
+    m = np.zeros(space.global_dof_count)
+    for e in space.support_elements:
+        for f in range(space.number_of_shape_functions):
+            m[space.local2global[e, f]] += abs(space.local_multipliers[e, f]) * w * grid.volumes[e]
+    return m
 
 
 def dense(op):
@@ -153,8 +157,8 @@ def job_boundary(pl, res, rng):
             p1 = api.function_space(grid, "P", 1)
             pairs += [("P1/P1", p1, p1, p1), ("DP0/P1", dp0, p1, p1)]
         for pname, dom, ran, dual in pairs:
-            md = np.asarray(grid.volumes, float) if dom is dp0 else abs_integrals(dom)
-            mt = np.asarray(grid.volumes, float) if dual is dp0 else abs_integrals(dual)
+            md = abs_integrals(dom)
+            mt = abs_integrals(dual)
             mm = np.outer(mt, md)                # rows: test (dual) functions, columns: trial (domain)
             mats = {}
             for kind in kinds:
@@ -181,24 +185,25 @@ def job_boundary(pl, res, rng):
                           "C05 boundary %s.%s != laplace.%s" % (nm, kind, kind),
                           "operator with zero wavenumber differs from the Laplace operator",
                           {"case": tag, "maxdiff": float(np.max(np.abs(A - L))), "scale": scale})
-                # S2: vanishing real part
-                eps = 1e-7
-                He = dense(getattr(helmholtz, kind)(dom, ran, dual, eps + 1j * w))
-                lim = np.abs(He - M)
-                # |d/dk kernel| <= (1 + |k| r) / (4 pi)  (sl: 1/(4 pi); dl/adl: |k|/(4 pi); hypersingular: see notes)
-                bound = eps * (2.0 + 2.0 * w * D) / PI4 * mm * (1 + 1e-6) + 1e-13 * scale
-                if kind != "hypersingular":
-                    check(res, bool(np.all(lim <= bound)),
-                          "C05 boundary.helmholtz.%s: limit real(k)->0 is not modified_helmholtz" % kind,
-                          "Helmholtz operator with k = eps + i w is not within eps*(2+2wD)/(4pi) m m' of modified Helmholtz",
-                          {"case": tag, "eps": eps, "w": w, "worst_ratio": float(np.max(lim / bound))})
-                else:
-                    check(res, float(np.max(lim)) <= 1e-4 * scale,
-                          "C05 boundary.helmholtz.hypersingular: limit real(k)->0 is not modified_helmholtz",
-                          "hypersingular operator with k = eps + i w is not close to the modified Helmholtz one",
-                          {"case": tag, "eps": eps, "w": w, "maxdiff": float(np.max(lim)), "scale": scale})
+                # S2: vanishing real part (two step sizes: the small one also ties the Helmholtz and modified kernels to
+                # each other at the 1e-10 level)
+                for eps in (1e-7, 1e-10):
+                    He = dense(getattr(helmholtz, kind)(dom, ran, dual, eps + 1j * w))
+                    lim = np.abs(He - M)
+                    # |d/dk kernel| <= (1 + |k| r) / (4 pi)  (sl: 1/(4 pi); dl/adl: |k|/(4 pi))
+                    bound = eps * (2.0 + 2.0 * w * D) / PI4 * mm * (1 + 1e-6) + 1e-13 * scale
+                    if kind != "hypersingular":
+                        check(res, bool(np.all(lim <= bound)),
+                              "C05 boundary.helmholtz.%s: limit real(k)->0 is not modified_helmholtz" % kind,
+                              "Helmholtz operator with k = eps + i w is not within eps*(2+2wD)/(4pi) m m' of modified Helmholtz",
+                              {"case": tag, "eps": eps, "w": w, "worst_ratio": float(np.max(lim / bound))})
+                    else:
+                        check(res, float(np.max(lim)) <= 1e3 * eps * scale + 1e-12 * scale,
+                              "C05 boundary.helmholtz.hypersingular: limit real(k)->0 is not modified_helmholtz",
+                              "hypersingular operator with k = eps + i w is not close to the modified Helmholtz one",
+                              {"case": tag, "eps": eps, "w": w, "maxdiff": float(np.max(lim)), "scale": scale})
                 # S3: k -> -conj k conjugates
-                for k in (0.7 / D + 0.4j / D, 2.1 / D + 0j, 0.3 / D + 1.3j / D):
+                for k in (0.7 / D + 0.4j / D, 2.1 / D + 0j, 0.3 / D - 0.6j / D):
                     Hk = dense(getattr(helmholtz, kind)(dom, ran, dual, k))
                     Hc = dense(getattr(helmholtz, kind)(dom, ran, dual, -np.conj(k)))
                     check(res, np.max(np.abs(Hc - np.conj(Hk))) <= 1e-12 * scale,
@@ -208,7 +213,7 @@ def job_boundary(pl, res, rng):
                     mats[(kind, k)] = Hk
                 # S4: small-k bounds (|k| D <= 1), real / imaginary / complex k
                 if kind in ("single_layer", "double_layer", "adjoint_double_layer"):
-                    for kk in (0.9 / D, 0.5j / D, (0.6 + 0.6j) / D, (-0.3 + 0.1j) / D, 1e-3 / D):
+                    for kk in (0.9 / D, 0.5j / D, (0.6 + 0.6j) / D, (-0.3 + 0.1j) / D, (0.2 - 0.5j) / D, 1e-3 / D):
                         kk = complex(kk)
                         Hk = dense(getattr(helmholtz, kind)(dom, ran, dual, kk))
                         ak2 = abs(kk) ** 2
@@ -232,6 +237,8 @@ def job_boundary(pl, res, rng):
             if dom is dual:
                 ksym = 1.1 / D + 0.3j / D
                 for kind in kinds:
+                    if kind == "hypersingular" and (dom is dp0 or dual is dp0):
+                        continue
                     for o in (3, 5, 7):
                         par = api.utils.parameters.DefaultParameters()
                         par.quadrature.singular = o
@@ -343,7 +350,7 @@ def main():
                 res["corr"]["evaluations"] += n
                 res["corr"]["nontrivial"] += nontrivial
                 res["corr"]["hist"][kind] = res["corr"]["hist"].get(kind, 0) + n
-            K.selftest_numba(pl["numba"], rng, 12 if pl["strength"] == "quick" else 120, disagree, count,
+            K.selftest_numba(pl["numba"], rng, 6 if pl["strength"] == "quick" else 120, disagree, count,
                              res["corr"]["samples"], jit=False)
             job_dispatch(pl, res, rng)
         elif pl["job"] == "boundary":
